@@ -171,6 +171,16 @@ def build(tier, seed):
                 if copy == "zero" and nf == 2:
                     d.reprs = ["align(16)"]
                 defs.append(d)
+    # ---- 1b. field types that share their last path segment / their generic head but are different types
+    # (every one of them must enter IS_ZERO_COPY, MaxSizeOf, the hashes and the ZeroCopy probes by itself)
+    same = ["na::Hd", "nb::Hd", "GZ<u8>", "GZ<u64>"]
+    for copy in ("zero", "deep"):
+        for order in (same, same[::-1], [same[1], same[0], same[3], same[2]]):
+            for kind in ("struct", "tuple"):
+                d = new()
+                d.kind, d.copy = kind, copy
+                d.fields = [(FIELD_NAMES[j], t) for j, t in enumerate(order)]
+                defs.append(d)
     # ---- 2. parameterisation patterns (deep structs / tuple structs / enums; zero-copy structs)
     roles_sets = [("F",), ("M",), ("P",), ("F", "F"), ("F", "M"), ("M", "F"), ("F", "P"), ("P", "F"), ("F", "F", "F"), ("F", "M", "P"), ("M", "P", "F")]
     for names in PARAM_NAMES:
@@ -330,6 +340,25 @@ HEADER = '''//! generated by epsrules/gen_corpus.py -- do not edit
 use epserde::prelude::*;
 use epserde::deser::DeserializeInner;
 use epserde::ser::SerializeInner;
+
+pub mod na {
+    use epserde::prelude::*;
+    #[derive(Epserde, Debug, Clone, Copy, PartialEq)]
+    #[repr(C)]
+    #[zero_copy]
+    pub struct Hd { pub x: u32 }
+}
+pub mod nb {
+    use epserde::prelude::*;
+    #[derive(Epserde, Debug, Clone, Copy, PartialEq)]
+    #[repr(C)]
+    #[zero_copy]
+    pub struct Hd { pub y: u64, pub z: u8 }
+}
+#[derive(Epserde, Debug, Clone, Copy, PartialEq)]
+#[repr(C)]
+#[zero_copy]
+pub struct GZ<T: ZeroCopy> { pub t: T, pub n: u16 }
 
 '''
 
